@@ -376,20 +376,12 @@ theorem stdinLang_eq_fileLang_name (f : Flags) (n s : Bytes) (h : langFromFilena
 
 /-! ## options -/
 
-theorem propsOptions_none_iff (l : Lang) (p : Props) (hl : l ≠ .auto) :
-    propsOptions l p = none ↔ langOfName (pget p (asc "shell_variant")) = some .auto := by
+theorem propsOptions_isSome (l : Lang) (p : Props) (hl : l ≠ .auto) :
+    propsOptions l p ≠ none := by
   unfold propsOptions
   cases h : langOfName (pget p (asc "shell_variant")) with
   | none => simp [hl]
-  | some v => cases v <;> simp
-
-theorem langOfName_auto (s : Bytes) : langOfName s = some .auto ↔ s = asc "auto" := by
-  unfold langOfName
-  constructor
-  · intro h
-    repeat' split at h
-    all_goals first | (simp at h; done) | assumption
-  · intro h; subst h; decide
+  | some v => cases v <;> simp [hl]
 
 theorem resolveOpts_flags (f : Flags) (e : Entry) (l : Lang) (h : useEC f = false) :
     resolveOpts f e l = some (optsOfFlags f l, false) := by
